@@ -121,6 +121,9 @@ type c03Placement struct {
 var c03Placements = []c03Placement{
 	{"top", func(c string) string { return "<b>[pre]</b>" + c + "<b>[post]</b>" }, 1},
 	{"nested", func(c string) string { return "<div><b>[pre]</b>" + c + "<b>[post]</b></div>" }, 1},
+	// the chain is the LAST content of its parent (nothing between the last member and the closing tag)
+	{"nested-tail", func(c string) string { return "<div><b>[pre]</b> " + c + "</div><b>[post]</b>" }, 1},
+	{"nested-only", func(c string) string { return "<b>[pre]</b><ul>" + c + "</ul><b>[post]</b>" }, 1},
 	{"in-vfor", func(c string) string { return `<div v-for="q in two"><b>[pre]</b>` + c + `<b>[post]</b></div>` }, 2},
 	{"in-vif-branch", func(c string) string {
 		return `<div v-if="yes"><b>[pre]</b>` + c + `<b>[post]</b></div><div v-else>[never]</div>`
